@@ -120,6 +120,9 @@ def StrIndexOf(input_string, substring, startIndex):
         s = input_string.value
         t = substring.value
         i = startIndex.value
+        if i > len(s):
+            # past the end nothing is found, not even the empty string
+            return BVV(-1, 64)
         return BVV(i + s[i:].index(t), 64)
     except ValueError:
         return BVV(-1, 64)
